@@ -514,7 +514,18 @@ func (c *ctx) runContainer(ops []op, origin string) []byte {
 	c.dist("reader_mode", mode)
 	var back util.Container
 	var perr error
-	hung, panicked, text := vf.RecoverWithin(parseWatchdog, func() { back, perr = util.NewTLV8ContainerFromReader(mkReader(mode, wire)) })
+	// (the parser is given a reader over the caller's receive buffer, which the caller reuses once the parser has returned)
+	rbuf := append([]byte(nil), wire...)
+	var rd io.Reader = mkReader(mode, rbuf)
+	if mode == "bytes.Buffer" {
+		rd = bytes.NewBuffer(rbuf)
+	}
+	hung, panicked, text := vf.RecoverWithin(parseWatchdog, func() { back, perr = util.NewTLV8ContainerFromReader(rd) })
+	if !hung {
+		for k := range rbuf {
+			rbuf[k] = ^rbuf[k]
+		}
+	}
 	if hung {
 		c.hung("reparse:does-not-return", fmt.Sprintf("parsing hc's own serialisation (%d bytes, %s reader) did not return within %s", len(wire), mode, parseWatchdog), witness)
 		return nil
